@@ -54,6 +54,17 @@ func init() {
 			{Name: "looked-up value trimmed before substitution", ExpectRule: "C37.R3", Edits: []Edit{
 				{File: "internal/config/config.go", Old: "\t\tif val, ok := os.LookupEnv(name); ok {\n\t\t\treturn val\n\t\t}", New: "\t\tif val, ok := os.LookupEnv(name); ok {\n\t\t\treturn strings.TrimSpace(val)\n\t\t}"},
 			}},
+			{Name: "chained passes whose callbacks delegate to a shared helper (braced pass, then the combined pass on its result)", ExpectRule: "C37.R1", ExpectKey: "input", Edits: []Edit{
+				{File: "internal/config/config.go", Old: "\treturn envVarRegex.ReplaceAllStringFunc(s, func(match string) string {", New: "\ts = bracedRe.ReplaceAllStringFunc(s, func(m string) string { return resolveRef(m) })\n\treturn envVarRegex.ReplaceAllStringFunc(s, func(m string) string { return resolveRef(m) })\n}\n\nvar bracedRe = regexp.MustCompile(`\\$\\{([^}]+)\\}`)\n\nfunc resolveRef(match string) string {\n\t{"},
+				{File: "internal/config/config.go", Old: "\t\treturn match // Keep original if not found\n\t})\n}", New: "\t\treturn match // Keep original if not found\n\t}\n}"},
+			}},
+			{Name: "expander replaced by os.ExpandEnv in Parse", ExpectRule: "C37.R3", ExpectKey: "os.ExpandEnv", Edits: []Edit{
+				{File: "internal/config/config.go", Old: "expanded := expandEnvVars(string(data))", New: "expanded := os.ExpandEnv(string(data))"},
+			}},
+			{Name: "rewrite: no-dollar fast path, callback delegating to a named helper", Edits: []Edit{
+				{File: "internal/config/config.go", Old: "\treturn envVarRegex.ReplaceAllStringFunc(s, func(match string) string {", New: "\tif !strings.Contains(s, \"$\") {\n\t\treturn s\n\t}\n\treturn envVarRegex.ReplaceAllStringFunc(s, func(m string) string { return resolveRef(m) })\n}\n\nfunc resolveRef(match string) string {\n\t{"},
+				{File: "internal/config/config.go", Old: "\t\treturn match // Keep original if not found\n\t})\n}", New: "\t\treturn match // Keep original if not found\n\t}\n}"},
+			}},
 			{Name: "dollar made optional in the pattern", ExpectRule: "C37.R2", Edits: []Edit{
 				{File: "internal/config/config.go", Old: "|\\$([A-Za-z_][A-Za-z0-9_]*)`)", New: "|\\$?([A-Za-z_][A-Za-z0-9_]*)`)"},
 			}},
@@ -150,17 +161,26 @@ func runC37(p *kit.Program, r *kit.Report) {
 			if cb == nil {
 				continue
 			}
-			env := false
-			for _, f := range kit.WithClosures(cb) {
-				for _, cc := range kit.Calls(f) {
-					if c37IsEnvLookup(kit.CalleeOf(cc)) {
-						env = true
-					}
-				}
-			}
-			if env {
+			if c37ReadsEnv(cb, 0, map[*ssa.Function]bool{}) {
 				exps = append(exps, c37Expander{fn, call, cb})
 			}
+		}
+	}
+	if len(exps) == 0 {
+		// the regexp mechanism is gone: if the package expands through os.Expand/os.ExpandEnv
+		// instead, that replacement is the violation (different semantics), not a blind spot
+		n := 0
+		for _, fn := range p.FuncsInPkg("internal/config") {
+			for _, c := range kit.Calls(fn) {
+				if cal := kit.CalleeOf(c); cal.Pkg == "os" && cal.Recv == "" && (cal.Name == "Expand" || cal.Name == "ExpandEnv") {
+					n++
+					r.Violation("C37.R3", fmt.Sprintf("%s %s #%d", kit.FuncName(fn), cal.String(), n), p.Pos(c.Pos()),
+						"configuration text is expanded by %s instead of a pattern pass whose callback returns the LookupEnv value / the reference as written: an unset variable without default is replaced (by the empty string) instead of being left as written, and ${VAR:-default} is not honoured", cal.String())
+				}
+			}
+		}
+		if n > 0 {
+			return
 		}
 	}
 	if !r.Require(len(exps) >= 1, "anchor-unresolved: no function of internal/config passes an environment-reading callback to (*regexp.Regexp).ReplaceAllStringFunc") {
@@ -176,58 +196,66 @@ func runC37(p *kit.Program, r *kit.Report) {
 		return false
 	}
 
+	passNo := map[*ssa.Function]int{}
+	perFn := map[*ssa.Function]int{}
+	for _, e := range exps {
+		perFn[e.fn]++
+	}
 	for _, e := range exps {
 		fname := kit.FuncName(e.fn)
 		pos := p.Pos(e.call.Pos())
-
-		// ---- R1 (a): exactly one pass in the expander and everything it defines
-		scope := kit.WithClosures(kit.TopLevel(e.fn))
-		if kit.TopLevel(e.callback) != kit.TopLevel(e.fn) {
-			scope = append(scope, kit.WithClosures(e.callback)...)
+		passNo[e.fn]++
+		sfx := ""
+		if perFn[e.fn] > 1 {
+			sfx = fmt.Sprintf(" (pass #%d)", passNo[e.fn])
 		}
-		passes, reenter := 0, ""
-		for _, f := range scope {
-			for _, c := range kit.Calls(f) {
-				cal := kit.CalleeOf(c)
-				if c37IsPass(cal) {
-					passes++
-				}
-				if cal.Static != nil && isExpander(cal.Static) {
-					reenter = p.Pos(c.Pos())
-				}
-			}
+		if passNo[e.fn] == 1 {
+			// ---- R1 (a): exactly one pass in the expander and everything it defines (once per function)
+			c37SinglePass(p, r, e, exps, fname, pos)
 		}
-		r.Decide(passes == 1, "C37.R1", fname+" single pass", pos,
-			"one substitution pass (ReplaceAllStringFunc) in the expander and its callback",
-			fmt.Sprintf("%d substitution passes (regexp Replace*/os.Expand*) in the expander and its callback: a value substituted by one pass is expanded again by the next", passes))
-		r.Decide(reenter == "", "C37.R1", fname+" not re-entered", pos,
-			"the expander is not called from itself or its callback",
-			"the expander is called again at "+reenter+" from inside the expansion: substituted environment values are expanded again")
-
 		// ---- R1 (b): input is the parameter, output is the call
 		in := kit.Arg(e.call, 0)
 		_, isParam := in.(*ssa.Parameter)
-		r.Decide(isParam && e.call.Parent() == e.fn, "C37.R1", fname+" input", pos,
-			"the pass runs over the unmodified parameter",
-			"the text handed to ReplaceAllStringFunc is not the expander's parameter itself: text without '$' can be altered before the pass")
+		chained := ""
+		for _, src := range kit.Slice(in, kit.SliceOpts{Prog: p}) {
+			if src.Kind == kit.SrcCall && c37IsPass(kit.CalleeOf(src.Call)) {
+				chained = p.Pos(src.Call.Pos())
+			}
+		}
+		badIn := "the text handed to ReplaceAllStringFunc is not the expander's parameter itself: text without '$' can be altered before the pass"
+		if chained != "" {
+			badIn = "the text handed to this substitution pass is the output of the substitution pass at " + chained + " (chained passes): values and defaults substituted by the first pass are scanned and expanded again by this one"
+		}
+		r.Decide(isParam && e.call.Parent() == e.fn, "C37.R1", fname+" input"+sfx, pos,
+			"the pass runs over the unmodified parameter", badIn)
 		rets := kit.Returns(e.fn)
 		okOut := len(rets) > 0
 		for _, ret := range rets {
 			if ret.Block() == e.fn.Recover {
 				continue
 			}
-			for _, l := range kit.PhiLeaves(kit.ReturnResult(ret, 0)) {
-				if l != ssa.Value(e.call) {
-					okOut = false
+			for _, l := range kit.GuardedLeaves(kit.ReturnResult(ret, 0), ret) {
+				if l.V == ssa.Value(e.call) {
+					continue
 				}
+				// fast path: the parameter itself, returned only when it contains no '$'
+				if l.V == in && isParam && c37NoDollarGuard(l.Guards, in) {
+					continue
+				}
+				if perFn[e.fn] > 1 {
+					if c, isCall := l.V.(*ssa.Call); isCall && c37IsPass(kit.CalleeOf(c)) {
+						continue // judged with the pass that produces it
+					}
+				}
+				okOut = false
 			}
 		}
-		r.Decide(okOut, "C37.R1", fname+" result", pos,
+		r.Decide(okOut, "C37.R1", fname+" result"+sfx, pos,
 			"every return yields the result of the single pass unmodified",
 			"the expander returns something other than the unmodified result of its single pass: text without '$' (or a substituted value) is altered after the pass")
 
 		// ---- R2: the pattern
-		c37Pattern(p, r, e, fname)
+		c37Pattern(p, r, e, fname+sfx)
 
 		// ---- R3: callback return values
 		c37CallbackReturns(p, r, e)
@@ -311,7 +339,21 @@ func runC37(p *kit.Program, r *kit.Report) {
 		}
 	}
 	r.Count("other_env_expansions_in_package", nOther)
-	r.Require(nSites >= 1, "floor: the expander has no call site in the repository")
+	if nSites == 0 {
+		// the expander is no longer used: if the package expands through os.Expand/os.ExpandEnv
+		// instead, that replacement is the violation, not a blind spot
+		n := 0
+		for _, fn := range p.FuncsInPkg("internal/config") {
+			for _, c := range kit.Calls(fn) {
+				if cal := kit.CalleeOf(c); cal.Pkg == "os" && cal.Recv == "" && (cal.Name == "Expand" || cal.Name == "ExpandEnv") {
+					n++
+					r.Violation("C37.R3", fmt.Sprintf("%s %s replaces the expander #%d", kit.FuncName(fn), cal.String(), n), p.Pos(c.Pos()),
+						"the pattern-based expander has no call site any more and configuration text is expanded by %s: an unset variable without default is replaced by the empty string instead of being left as written, and ${VAR:-default} is not honoured", cal.String())
+				}
+			}
+		}
+		r.Require(n > 0, "floor: the expander has no call site in the repository")
+	}
 }
 
 // c37Pattern decides R2 for one expander.
@@ -548,17 +590,61 @@ func c37CallbackReturns(p *kit.Program, r *kit.Report, e c37Expander) {
 		r.Floor("anchor-unresolved: callback %s parameter is not a string", cbName)
 		return
 	}
-	nRet, nLeaf := 0, 0
-	for _, ret := range kit.Returns(cb) {
-		if ret.Block() == cb.Recover {
+	cnt := &c37Counts{}
+	c37AnalyseReturns(p, r, cb, func(v ssa.Value) bool { return v == param }, func(v ssa.Value) bool { return v == param }, 0, map[*ssa.Function]bool{}, cnt)
+	r.Count("callback_returns", cnt.ret)
+	r.Count("callback_return_values", cnt.leaf)
+	r.Count("env_lookups", cnt.look)
+	r.Require(cnt.ret >= 1, "floor: callback %s has no return", cbName)
+}
+
+type c37Counts struct{ ret, leaf, look int }
+
+// c37SubOfF: v is one of the base values (the match, or a parameter bound to a sub-slice of
+// the match) or a (slice of a ...) slice of one.
+func c37SubOfF(v ssa.Value, base func(ssa.Value) bool, depth int) bool {
+	if base(v) {
+		return true
+	}
+	if depth > 12 {
+		return false
+	}
+	switch x := v.(type) {
+	case *ssa.Slice:
+		return c37SubOfF(x.X, base, depth+1)
+	case *ssa.Phi:
+		for _, e := range x.Edges {
+			if !c37SubOfF(e, base, depth+1) {
+				return false
+			}
+		}
+		return len(x.Edges) > 0
+	}
+	return false
+}
+
+// c37AnalyseReturns decides R3 for fn: the callback itself, or a helper the callback returns
+// the result of (resolveEnvRef(match[2:len(match)-1], match)). base recognises the values of
+// fn's frame that are (sub-slices of) the match; whole recognises the match as written.
+func c37AnalyseReturns(p *kit.Program, r *kit.Report, fn *ssa.Function, base, whole func(ssa.Value) bool, depth int, seen map[*ssa.Function]bool, cnt *c37Counts) {
+	if seen[fn] {
+		return
+	}
+	seen[fn] = true // on the analysis stack (recursion guard)
+	defer delete(seen, fn)
+	name := kit.FuncName(fn)
+	nRet := 0
+	for _, ret := range kit.Returns(fn) {
+		if ret.Block() == fn.Recover || len(ret.Results) == 0 {
 			continue
 		}
 		nRet++
+		cnt.ret++
 		var leaves []c37Leaf
 		c37Leaves(kit.ReturnResult(ret, 0), kit.GuardsOf(ret), map[ssa.Value]bool{}, &leaves)
 		for j, l := range leaves {
-			nLeaf++
-			key := fmt.Sprintf("%s return #%d value #%d", cbName, nRet, j+1)
+			cnt.leaf++
+			key := fmt.Sprintf("%s return #%d value #%d", name, nRet, j+1)
 			pos := p.Pos(ret.Pos())
 			// established lookup facts
 			var okTrue, okFalse []*ssa.Call
@@ -571,15 +657,14 @@ func c37CallbackReturns(p *kit.Program, r *kit.Report, e c37Expander) {
 					}
 				}
 			}
-			switch {
-			case func() bool {
-				ex, ok := l.v.(*ssa.Extract)
-				if !ok || ex.Index != 0 {
-					return false
+			isLookup := false
+			if ex, ok := l.v.(*ssa.Extract); ok && ex.Index == 0 {
+				if c, ok := ex.Tuple.(*ssa.Call); ok && kit.CalleeOf(c).Pkg == "os" && kit.CalleeOf(c).Name == "LookupEnv" {
+					isLookup = true
 				}
-				c, ok := ex.Tuple.(*ssa.Call)
-				return ok && kit.CalleeOf(c).Pkg == "os" && kit.CalleeOf(c).Name == "LookupEnv"
-			}():
+			}
+			switch {
+			case isLookup:
 				c := l.v.(*ssa.Extract).Tuple.(*ssa.Call)
 				on := false
 				for _, t := range okTrue {
@@ -590,35 +675,58 @@ func c37CallbackReturns(p *kit.Program, r *kit.Report, e c37Expander) {
 				r.Decide(on, "C37.R3", key, pos,
 					"the looked-up value is returned, unmodified, on the ok edge of its lookup",
 					"the value of os.LookupEnv is returned without its ok result being established: an unset variable is replaced by the empty string instead of its default / the reference as written")
-			case c37SubOfMatch(l.v, param, 0):
+			case c37SubOfF(l.v, base, 0):
 				what := "a sub-slice of the match (the default)"
-				if l.v == param {
+				if whole(l.v) {
 					what = "the match as written"
 				}
 				r.Decide(len(okFalse) > 0, "C37.R3", key, pos,
 					what+" is returned on the !ok edge of a lookup",
 					what+" is returned although no lookup has reported the variable unset on this path: a reference to a set variable is not replaced by its value")
 			default:
+				// the result of a repository helper that is handed (parts of) the match
+				if call, ok := l.v.(*ssa.Call); ok && depth < 3 {
+					h := kit.CalleeOf(call).Static
+					if h != nil && h.Blocks != nil && kit.IsRepoPkg(kit.FuncPkgPath(h)) && !seen[h] && !c37IsPass(kit.CalleeOf(call)) {
+						args := call.Call.Args
+						hb := func(v ssa.Value) bool {
+							for i, prm := range h.Params {
+								if v == ssa.Value(prm) && i < len(args) && c37SubOfF(args[i], base, 0) {
+									return true
+								}
+							}
+							return false
+						}
+						hw := func(v ssa.Value) bool {
+							for i, prm := range h.Params {
+								if v == ssa.Value(prm) && i < len(args) && whole(args[i]) {
+									return true
+								}
+							}
+							return false
+						}
+						cnt.leaf--
+						c37AnalyseReturns(p, r, h, hb, hw, depth+1, seen, cnt)
+						continue
+					}
+				}
 				r.Violation("C37.R3", key, pos, "the callback returns %s, which is neither the unmodified result of os.LookupEnv, nor the match, nor a sub-slice of the match: the substituted text is computed (possibly expanded again) or an unset reference is not left as written", c37Describe(l.v))
 			}
 		}
 	}
-	r.Count("callback_returns", nRet)
-	r.Count("callback_return_values", nLeaf)
-	r.Require(nRet >= 1, "floor: callback %s has no return", cbName)
 	// looked-up names come from the match
 	n := 0
-	for _, f := range kit.WithClosures(cb) {
+	for _, f := range kit.WithClosures(fn) {
 		for _, c := range kit.Calls(f) {
 			if cal := kit.CalleeOf(c); cal.Pkg == "os" && cal.Name == "LookupEnv" {
 				n++
-				r.Decide(f == cb && c37SubOfMatch(kit.Arg(c, 0), param, 0), "C37.R3", fmt.Sprintf("%s lookup #%d name", cbName, n), p.Pos(c.Pos()),
+				cnt.look++
+				r.Decide(f == fn && c37SubOfF(kit.Arg(c, 0), base, 0), "C37.R3", fmt.Sprintf("%s lookup #%d name", name, n), p.Pos(c.Pos()),
 					"the looked-up name is a sub-slice of the match",
 					"the name handed to os.LookupEnv is not a sub-slice of the matched reference: a reference is replaced by the value of a different variable")
 			}
 		}
 	}
-	r.Count("env_lookups", n)
 }
 
 func c37Describe(v ssa.Value) string {
@@ -635,4 +743,125 @@ func c37Describe(v ssa.Value) string {
 		return "a computed string (" + x.Op.String() + ")"
 	}
 	return "a value of kind " + fmt.Sprintf("%T", v)
+}
+
+// c37ReadsEnv: f (with its closures) or a repository function it calls reads the environment.
+func c37ReadsEnv(f *ssa.Function, depth int, seen map[*ssa.Function]bool) bool {
+	if f == nil || seen[f] || depth > 3 {
+		return false
+	}
+	seen[f] = true
+	for _, g := range kit.WithClosures(f) {
+		for _, c := range kit.Calls(g) {
+			cal := kit.CalleeOf(c)
+			if c37IsEnvLookup(cal) {
+				return true
+			}
+			if cal.Static != nil && cal.Static.Blocks != nil && kit.IsRepoPkg(kit.FuncPkgPath(cal.Static)) && c37ReadsEnv(cal.Static, depth+1, seen) {
+				return true
+			}
+		}
+	}
+	return false
+}
+
+// c37NoDollarGuard: the guards establish that text contains no '$' (strings.Contains /
+// ContainsRune / IndexByte ... tested on it).
+func c37NoDollarGuard(gs []kit.Guard, text ssa.Value) bool {
+	for _, g := range gs {
+		cond, pol := g.Cond, g.Polarity
+		for {
+			u, ok := cond.(*ssa.UnOp)
+			if !ok || u.Op != token.NOT {
+				break
+			}
+			cond, pol = u.X, !pol
+		}
+		switch x := cond.(type) {
+		case *ssa.Call:
+			cal := kit.CalleeOf(x)
+			if cal.Pkg == "strings" && (cal.Name == "Contains" || cal.Name == "ContainsRune" || cal.Name == "ContainsAny") && len(x.Call.Args) == 2 && x.Call.Args[0] == text && !pol {
+				if sv, ok := kit.ConstString(x.Call.Args[1]); ok && sv == "$" {
+					return true
+				}
+				if k, ok := kit.ConstInt(x.Call.Args[1]); ok && k == '$' {
+					return true
+				}
+			}
+		case *ssa.BinOp:
+			// strings.IndexByte(s, '$') < 0  /  == -1
+			c, ok := x.X.(*ssa.Call)
+			if !ok {
+				continue
+			}
+			cal := kit.CalleeOf(c)
+			if cal.Pkg != "strings" || (cal.Name != "IndexByte" && cal.Name != "Index" && cal.Name != "IndexRune") || len(c.Call.Args) != 2 || c.Call.Args[0] != text {
+				continue
+			}
+			isDollar := false
+			if sv, ok := kit.ConstString(c.Call.Args[1]); ok && sv == "$" {
+				isDollar = true
+			}
+			if k, ok := kit.ConstInt(c.Call.Args[1]); ok && k == '$' {
+				isDollar = true
+			}
+			k, isConst := kit.ConstInt(x.Y)
+			if !isDollar || !isConst {
+				continue
+			}
+			op := x.Op
+			if !pol {
+				switch op {
+				case token.LSS:
+					op = token.GEQ
+				case token.GEQ:
+					op = token.LSS
+				case token.EQL:
+					op = token.NEQ
+				case token.NEQ:
+					op = token.EQL
+				}
+			}
+			if (op == token.LSS && k == 0) || (op == token.EQL && k == -1) {
+				return true
+			}
+		}
+	}
+	return false
+}
+
+// c37SinglePass decides, once per expander function, that it and its callbacks contain one
+// substitution pass and do not re-enter the expander.
+func c37SinglePass(p *kit.Program, r *kit.Report, e c37Expander, exps []c37Expander, fname, pos string) {
+	isExpander := func(f *ssa.Function) bool {
+		for _, x := range exps {
+			if x.fn == f {
+				return true
+			}
+		}
+		return false
+	}
+	scope := kit.WithClosures(kit.TopLevel(e.fn))
+	if kit.TopLevel(e.callback) != kit.TopLevel(e.fn) {
+		scope = append(scope, kit.WithClosures(e.callback)...)
+	}
+	passes, reenter := 0, ""
+	for _, f := range scope {
+		for _, c := range kit.Calls(f) {
+			cal := kit.CalleeOf(c)
+			if c37IsPass(cal) {
+				passes++
+			}
+			if cal.Static != nil && isExpander(cal.Static) {
+				reenter = p.Pos(c.Pos())
+			}
+		}
+	}
+	r.Decide(passes == 1, "C37.R1", fname+" single pass", pos,
+		"one substitution pass (ReplaceAllStringFunc) in the expander and its callback",
+		fmt.Sprintf("%d substitution passes (regexp Replace*/os.Expand*) in the expander and its callback: a value substituted by one pass is expanded again by the next", passes))
+	r.Decide(reenter == "", "C37.R1", fname+" not re-entered", pos,
+		"the expander is not called from itself or its callback",
+		"the expander is called again at "+reenter+" from inside the expansion: substituted environment values are expanded again")
+
 }
